@@ -235,7 +235,7 @@ def tstr(t):
 
 
 class State:
-    __slots__ = ("env", "attrs", "facts", "ret", "exc", "log", "events")
+    __slots__ = ("env", "attrs", "facts", "ret", "exc", "log", "alog", "events")
 
     def __init__(self):
         self.env = {}
@@ -244,6 +244,7 @@ class State:
         self.ret = None
         self.exc = None
         self.log = []
+        self.alog = []
         self.events = []
 
     def fork(self):
@@ -254,6 +255,7 @@ class State:
         s.ret = self.ret
         s.exc = self.exc
         s.log = list(self.log)
+        s.alog = list(self.alog)
         s.events = list(self.events)
         return s
 
@@ -1060,7 +1062,9 @@ class SymEngine:
         k = ev.k
         if k == "assume":
             t = self.ev(ev.node, f, st)
-            st.log.append((t, ev.a, ev.node))
+            # conditions of `assert` statements refine the facts but are kept apart from the guards: a rule that
+            # asks "under exactly which conditions does this happen" is not disturbed by a declared invariant
+            (st.alog if ev.b == "assert" else st.log).append((t, ev.a, ev.node))
             if not self.assume(t, ev.a, st.facts):
                 return False
         elif k == "stmt":
